@@ -28,7 +28,8 @@ PROPS = {
         parts=[
             dict(name="deg", workers={Q: 5, T: 5}, cases={Q: 20000, T: 400000}),
             dict(name="gp", workers={Q: 7, T: 7}, cases={Q: 5000, T: 100000}),
-            dict(name="rect", workers={Q: 4, T: 4}, cases={Q: 8000, T: 160000}),
+            dict(name="rect", workers={Q: 3, T: 3}, cases={Q: 8000, T: 160000}),
+            dict(name="rectpairs", kind="enum", workers={Q: 2, T: 2}),
         ],
         rule=("three generators: (deg) arbitrary degenerate subject/clip/open path sets in magnitude classes 8..2^62 - "
               "structural clauses only (>=3 vertices, no equal consecutive vertices, vertices inside the input bounding box "
@@ -37,7 +38,8 @@ PROPS = {
               "nesting depth (exact winding at doubled edge midpoints), no collinear triple with PreserveCollinear off, "
               "every vertex within tolerance of an input edge, and Union idempotence. Every case runs 4 clip types x 4 fill "
               "rules x PreserveCollinear x ReverseSolution. Non-trivial = some solution has >=2 paths or a path with >=6 vertices"
-              " Routes: 20% of the cases go through ClipperD at precision 0..3 (judged in ClipperD's internal grid), 25% take the closed paths from a PolyTree64/PolyTreeD and flatten it; with open subjects loaded the structural clauses are also applied to the closed-only Execute overload"),
+              " Routes: 20% of the cases go through ClipperD at precision 0..3 (judged in ClipperD's internal grid), 25% take the closed paths from a PolyTree64/PolyTreeD and flatten it; with open subjects loaded the structural clauses are also applied to the closed-only Execute overload"
+              " Exhaustive strict scope (rectpairs): every ordered pair of rectangles of a 4x4-cell lattice in both orientations and every triple of the 3x3-cell lattice (86,656 inputs x 64 configurations); there the unchanged tree shows none of the classes KF-C03-b..e, so a recogniser hit other than KF-C03-a (which already occurs with two rectangles) is reported as a violation."),
         assumptions=["geometric clauses judged for |coord| <= 2^59 (doubled coordinates must fit the __int128 predicates)",
                      "idempotence differences that vanish after splitting paths at vertices they visit twice are the listed class KF-C03-a"],
         technique="property-based testing (rapidcheck): exact structural and geometric validity predicates over the solution + Union round-trip",
